@@ -246,7 +246,7 @@ PROPS = {
         rule="acyclic scripts (forward jumps only, so every run ends) x choices x 1-6 arguments for the calls after the end; non-trivial = end by stop with "
              "statements remaining or inside a nested body, or end directly after an option group; distinct = distinct serialised cases.",
         assumptions=["'until a snapshot is restored' is C07's business"],
-        subs=[rapid("absorbing-end", "TestC12End", 2500, 25000)],
+        subs=[rapid("absorbing-end", "TestC12End", 2500, 25000), enum("deep-stop", "TestC12DeepStop")],
     ),
     "C13": dict(
         technique="PBT with a constructive reference model (expected text/ranges computed from the generated segment structure) + small-scope enumeration",
